@@ -1791,6 +1791,116 @@ def search_shared(ctx, rng, counts, deep):
             examine_shared(ctx, names, datasets, seeds, counts, seeded_protos=(k == 0 and rng.random() < 0.5))
 
 
+# ------------------------------------------------------------------ probabilities hit EXACTLY by a solver midpoint
+def structured_sample(rng):
+    """symmetric / evenly spaced / integer samples (their mid-range, mean and median are exact floats)"""
+    kind = rng.choice(['1..n', '-k..k', 'linspace', 'symmetric', 'generic'])
+    if kind == '1..n':
+        return kind, np.arange(1.0, rng.choice([5, 6, 9, 10, 20, 41]) + 1)
+    if kind == '-k..k':
+        k = rng.choice([2, 3, 5, 10, 25])
+        return kind, np.arange(-k, k + 1.0)
+    if kind == 'linspace':
+        a = rng.choice([0.0, -1.0, 10.0, 0.5])
+        return kind, np.linspace(a, a + rng.choice([1.0, 2.0, 8.0, 100.0]), rng.choice([5, 9, 17, 33]))
+    if kind == 'symmetric':
+        rs = np.random.RandomState(rng.randrange(2 ** 31))
+        h = np.abs(rs.normal(0, rng.choice([1.0, 4.0, 0.25]), rng.choice([3, 8, 20]))) + 0.125
+        return kind, np.concatenate([-h, h])
+    return kind, gen_data(rng, n=rng.choice([8, 30, 100]))[1]
+
+
+def examine_exact_hits(ctx, spec, data, seed, counts):
+    """GaussianKDE.percent_point, both solvers, on batches that contain probabilities a solver midpoint hits
+    EXACTLY (q = cdf of the dyadic points of the bracket, of the mid-range / mean / observed points; 0.5, 0.25, …)
+    next to quartiles / deciles / tails: every element must satisfy |cdf(ppf(q)) - q| <= the solver's tolerance,
+    equal its value when asked alone, and the batch must be non-decreasing."""
+    m = fit(spec, data)
+    if isinstance(m, tuple) or is_const(m) or not is_kde(m):
+        return
+    inst = inst_of(m)
+    ctx.count('exact-hits.' + spec.get('sample', 'generic'))
+    rs = np.random.RandomState(seed)
+    d = np.asarray(inst._params['dataset'], dtype=float).ravel()
+    L, Up = (float(v) for v in inst._get_bounds())
+    span = max(float(d.max() - d.min()), float(d.std()))
+    mids = [(L + Up) / 2.0]
+    mids += [(L + mids[0]) / 2.0, (mids[0] + Up) / 2.0]
+    mids += [(mids[1] + mids[0]) / 2.0, (mids[0] + mids[2]) / 2.0]
+    pts = mids + [(float(d.min()) + float(d.max())) / 2.0, float(d.mean()), float(np.median(d))] + \
+        [float(v) for v in rs.choice(d, min(3, len(d)), replace=False)]
+    with np.errstate(all='ignore'):
+        q_hit = [float(v) for v in inst.cumulative_distribution(np.array(pts))]
+        maxpdf = float(np.max(inst.probability_density(d)))
+        cu = float(inst.cumulative_distribution(np.array([Up]))[0])
+    dyadic = [0.5, 0.25, 0.75, 0.125, 0.875, 0.0625]
+    grids = [[0.25, 0.5, 0.75], [i / 10 for i in range(1, 10)], [1e-3, 0.01, 0.05, 0.95, 0.99, 1 - 1e-3]]
+    batches = []
+    for g in grids:
+        k = int(rs.randint(1, 4))
+        extra = list(rs.choice(q_hit, k)) + list(rs.choice(dyadic, 2))
+        b = np.array(list(g) + extra)
+        if rs.rand() < 0.5:
+            rs.shuffle(b)
+        batches.append(b)
+    batches.append(np.array([q_hit[0], 0.1]))
+    batches.append(np.array([0.9, 0.5]))
+    batches.append(np.array(sorted(q_hit[:5] + [0.2, 0.8])))
+    for method in ('bisect', 'chandrupatla'):
+        xtol = (2e-8 + 1e-9 * span) if method == 'bisect' else 1e-9 * span
+        qtol = 1e-7 + (maxpdf * 1e-8 if method == 'bisect' else 0.0)
+        for b in batches:
+            b = b[(b > 2 * EPS) & (b < min(1 - 2 * EPS, cu))]      # (q above cdf(U): the known bracket finding)
+            if len(b) < 2:
+                continue
+            whole = call(inst.percent_point, b, method=method)
+            counts['checks'] += len(b)
+            problem = None
+            if whole[0] == 'err':
+                problem = {'raises': whole[1]}
+            else:
+                w = whole[1]
+                back = np.asarray(inst.cumulative_distribution(w), dtype=float)
+                bad = ~(np.abs(back - b) <= qtol)
+                if np.any(bad):
+                    i = int(np.argmax(bad))
+                    problem = {'index': i, 'q_i': float(b[i]), 'ppf_in_batch': float(w[i]), 'cdf(ppf)': float(back[i]),
+                               'tolerance': qtol}
+                else:
+                    for i, qi in enumerate(b):
+                        r1 = call(inst.percent_point, np.array([qi]), method=method)
+                        if r1[0] == 'ok' and not abs(float(r1[1][0]) - float(w[i])) <= xtol:
+                            problem = {'index': i, 'q_i': float(qi), 'ppf_in_batch': float(w[i]),
+                                       'ppf_alone': float(r1[1][0]), 'tolerance_x': xtol}
+                            break
+                    order = np.argsort(b, kind='stable')
+                    dv = np.diff(w[order])
+                    if problem is None and np.any(dv < -xtol):
+                        j = int(np.argmin(dv))
+                        problem = {'not_monotone': True, 'q': [float(b[order][j]), float(b[order][j + 1])],
+                                   'ppf': [float(w[order][j]), float(w[order][j + 1])]}
+            if problem is None:
+                continue
+            counts['failures'] += 1
+            key = ('GaussianKDE.percent_point:bisect:batch-stops-early' if method == 'bisect'
+                   else 'GaussianKDE.percent_point:batch-with-exactly-hit-probability')
+            if sum(1 for f in ctx.failing if f['class'] == key) < 3:
+                ctx.fail_input('GaussianKDE.percent_point', {'spec': spec, 'data': [float(v) for v in data], 'q': b.tolist(),
+                                                              'method': method, 'seed': seed, 'law': 'exact-hits'},
+                               dict(problem, method=method, exactly_hit_probabilities=[float(v) for v in b if float(v) in q_hit]),
+                               'every element of a batch: |cdf(ppf(q)) - q| <= the solver tolerance, equal to its value when '
+                               'asked alone, non-decreasing in q -- also when a solver midpoint hits one q exactly', key)
+            break
+
+
+def search_exact_hits(ctx, rng, counts, deep):
+    for rep in range(12 if deep else 4):
+        kind, data = structured_sample(rng)
+        spec = {'cls': 'GaussianKDE', 'opts': {'bw_method': rng.choice([None, 'scott', 'silverman', 0.5, 1.0])},
+                'sample': kind}
+        examine_exact_hits(ctx, spec, data, rng.randrange(2 ** 31), counts)
+
+
 def search_tails(ctx, rng, counts, deep):
     for rep in range(4 if deep else 1):
         for cls in ALL:
@@ -1813,6 +1923,7 @@ def search(ctx, deep):
     reps = 10 if deep else 2
     search_tails(ctx, ctx.rng('search-tails'), counts, deep)
     search_composition(ctx, ctx.rng('search-composition'), counts, deep)
+    search_exact_hits(ctx, ctx.rng('search-exact-hits'), counts, deep)
     search_shared(ctx, ctx.rng('search-shared'), counts, deep)
     search_history(ctx, ctx.rng('search-history'), counts, deep)
     search_batch(ctx, ctx.rng('search-batch'), counts, deep)
@@ -1871,6 +1982,9 @@ def replay(ctx, payload):
     if inp.get('law') == 'shared':
         examine_shared(ctx, inp['candidates'], [np.array(d_, dtype=float) for d_ in inp['datasets']], inp['seeds'],
                        counts, inp.get('seeded_protos', False))
+        return any(f['class'] == payload.get('class') for f in ctx.failing[before:])
+    if inp.get('law') == 'exact-hits':
+        examine_exact_hits(ctx, inp['spec'], np.array(inp['data'], dtype=float), inp['seed'], counts)
         return any(f['class'] == payload.get('class') for f in ctx.failing[before:])
     if inp.get('law') == 'tails':
         examine_tails(ctx, inp['spec'], np.array(inp['data'], dtype=float), counts)
